@@ -111,3 +111,42 @@ RUN_FLAG = Contract(
     result_kind=BOOL, frame=[], props=["C20"],
     assumes=["extracted block: the body of the run policy lambda handed to flag_children"],
 )
+
+
+# ---------------------------------------------------------------- _reuse_tool_with_param_dict: temporary parameters are temporary
+from pyvc.kinds import Map                                                              # noqa: E402
+
+
+def reused_tool(eng, st, args, kw, node):
+    """the reused tool: called with the shared configuration; returns None or an arbitrary integer status"""
+    n = st.ghost.get("tool.calls") or V(INT, z3.Const("tool.calls0", z3.IntSort()))
+    st.ghost["tool.calls"] = V(INT, n.term + 1)
+    none = fresh(BOOL, "tool.none")
+    for st1, isnone in eng.fork(st, none.term, "tool.returns_none"):
+        if isnone:
+            st1.ghost["tool.status"] = V(INT, z3.IntVal(0))
+            yield st1, NONE
+        else:
+            r = fresh(INT, "tool.result")
+            st1.ghost["tool.status"] = r
+            yield st1, r
+
+
+OLD_PD = "old(config['param_dict'])"
+REUSE_TOOL = Contract(
+    target=f"{INTERTEST}::_reuse_tool_with_param_dict",
+    params={"config": Map(STR, Ref("Params")), "tag": STR, "param_dict": Ref("Params"),
+            "tool": VFunc("handler", fn=reused_tool, name="tool")},
+    requires=["'param_dict' in config and config['param_dict'] is not None and config['param_dict'] != param_dict"],
+    raises={},
+    ensures=[
+        # whatever the reused tool reports, the shared parameters are the original ones again afterwards
+        ("temporary_parameters_are_dropped", f"forall(STR, lambda k: (k in config['param_dict']) == old(k in config['param_dict']) and "
+                                             f"implies(k in config['param_dict'], config['param_dict'][k] == old(config['param_dict'][k])))"),
+        ("tool_called_once", "ghost('tool.calls') == old(ghost('tool.calls')) + 1"),
+        ("overwrite_parameters_untouched", "forall(STR, lambda k: (k in param_dict) == old(k in param_dict) and "
+                                           "implies(k in param_dict, param_dict[k] == old(param_dict[k])))"),
+    ],
+    frame=["Params.p_has", "Params.p_val"], props=["C20"],
+    assumes=["the reused tool is a seam (None or any integer status); exceptions of the tool are outside this contract"],
+)
